@@ -22,8 +22,24 @@ PROPS = {
     "C12": {"quick": [J("^vhC12_.*_L2$", samples=4)], "thorough": [J("^vhC12_.*_L3$", samples=8)], "bounds": {}, "assumptions": []},
     "C01": {"quick": [J("^vhC01_.*_L3$", samples=6)], "thorough": [J("^vhC01_.*_L4$", samples=12)],
             "bounds": {"script_length_quick": 3, "script_length_thorough": 4}, "assumptions": []},
+    "C11": {"quick": [J("^vhC11_.*_K4$", samples=4)], "thorough": [J("^vhC11_.*_K5$", samples=8)], "bounds": {}, "assumptions": []},
+    "C13": {"quick": [J("^vhC02_core_2x2$|^vhC06_wait_L1$|^vhC08_handoff_n2$|^vhC17_(tochannel|fromchannel)_L2$", preempt=1, races=True, samples=2)],
+            "thorough": [J("^vhC02_core_(2x2|3x1)$|^vhC06_wait_L2$|^vhC08_handoff_n3$|^vhC17_(tochannel|fromchannel)_L2$", preempt=2, races=True, samples=2)], "bounds": {}, "assumptions": []},
+    "C15": {"quick": [J("^vhC15_.*_A2$", samples=4)], "thorough": [J("^vhC15_.*_A(2|3)$", samples=8)], "bounds": {}, "assumptions": []},
+    "C16": {"quick": [J("^vhC16_.*2$", samples=2, native=False)], "thorough": [J("^vhC16_.*3$", samples=2, native=False)], "bounds": {}, "assumptions": []},
     "C10": {"quick": [J("^vhC10_seq_.*_K4$", samples=3)], "thorough": [J("^vhC10_seq_.*_K5$", samples=6)],
             "bounds": {"ops_quick": 4, "ops_thorough": 5, "subscribers": 3}, "assumptions": []},
     "C04": {"quick": [J("^vhC04_ref_L3$", samples=8)], "thorough": [J("^vhC04_ref_L(3|4)$", samples=16)],
             "bounds": {"script_length_quick": 3, "script_length_thorough": 4}, "assumptions": []},
+}
+
+# Per-property claim texts for MANIFEST.json (defaults apply where absent).
+TEXT = {
+    "C13": {"text": "happens-before (vector clock) race detection over every explored schedule (<= P preemptions) of the concurrent scenarios of C02/C06/C08/C17; a race between two accesses unordered on some explored schedule is reported even if that schedule did not make them adjacent; replay through go test -race",
+            "technique": "symbolic execution of go/ssa with explicit threads, vector-clock happens-before tracking, preemption-bounded schedule enumeration"},
+    "C16": {"note": "time is a symbolic logical clock (durations in (0,2^40] ns, gaps symbolic); native replay of time-dependent counterexamples requires the virtual-time shim; stubs as listed in the evidence"},
+}
+
+# Properties not claimed, with the reason.
+NOT_APPLICABLE = {
 }
